@@ -51,6 +51,11 @@ def _chunks(lst, n):
 
 
 # ---- C17 --------------------------------------------------------------------------------------------
+def probe2(kind, iface, sz, al, idx, idx2, val):
+    """one node with a byte written into the fence in front of it (idx) AND into the one behind it (idx2)"""
+    return "probe %d %d %d %d 4 %d %d %d" % (kind, iface, sz, al, idx, val, idx2)
+
+
 def probe(kind, iface, sz, al, side, idx, val):
     return "probe %d %d %d %d %d %d %d" % (kind, iface, sz, al, side, idx, val)
 
@@ -83,6 +88,9 @@ def fence_grid(cfg, tier, rng):
                 for idx in range(reach):
                     for v in range(nvals):
                         cmds.append(probe(kind, iface, sz, al, side, idx, VALUES[(k + idx + v) % 3]))
+            if reach:
+                for _ in range(2 if tier == "quick" else 6):
+                    cmds.append(probe2(kind, iface, sz, al, rng.randrange(reach), rng.randrange(reach), VALUES[k % 3]))
     # virtual memory: a page on each side
     vreach = PAGE if reach else 0
     if tier == "quick":
